@@ -21,7 +21,7 @@ func init() {
 		Level: "model_checking",
 		Rule: "all object literals of <=4 (thorough 5) pairs over names {a,b,_p,_q} with <=2 `**` objects, all literals of 2..3 (thorough 4) distinct names out of 12 that differ only by a suffix, a digit or case (a, a!, a?, a_, a1, aa, Ab, b, _p, _p!, _p1, _Pq; listed order incl. after ** into an object or a map), and all map literals of <=4 (thorough 5) pairs over 15 key kinds (incl. two floats that print alike) plus `**map`/`**obj` combinations; " +
 			"every accessor (keys/values/items with and without private?, A, iteration, S, ==, indexing by every key, len) is evaluated by the real interpreter and compared with an ordered-dictionary model; " +
-			"non-trivial = literal with a duplicate, a private name, an embedded container or a non-scalar key; distinct = distinct literal text; round 7: A collide family enumerates every map/object literal of <=3 pairs over 7 str keys that agree position by position in the low byte of their code points and 6 non-scalar keys that are == although built differently (a literal and its bear child).; round 8: `private?` is also given as false / nil / through an expansion / as a computed false; names of 32..130 characters take part in the listed-order family.",
+			"non-trivial = literal with a duplicate, a private name, an embedded container or a non-scalar key; distinct = distinct literal text; round 7: A collide family enumerates every map/object literal of <=3 pairs over 7 str keys that agree position by position in the low byte of their code points and 6 non-scalar keys that are == although built differently (a literal and its bear child).; round 8: `private?` is also given as false / nil / through an expansion / as a computed false; names of 32..130 characters take part in the listed-order family.; round 10: 11 private names that the interpreter and its native library use themselves (_name, _iter, _missing, _value, ...) x 7 literal shapes (written, arriving through one or two `**`, duplicated across them); 15 literal templates (one syntax node each) evaluated for every sequence of 2..3 (thorough 4) operands, each evaluation compared with the literal written out for that operand.",
 		Assumptions: []string{
 			"print order of maps is a don't-care (only the set of printed pairs is compared)",
 			"operator-named object properties and string keys naming Map's own properties are not generated",
@@ -36,8 +36,9 @@ type tcase struct {
 	Kind string `json:"kind"` // obj | map
 	Src  string `json:"src"`
 	// model input
-	Pairs [][2]string `json:"pairs"` // key id / name, value
-	Emb   []string    `json:"emb"`   // embedded container ids
+	Pairs [][2]string `json:"pairs"`         // key id / name, value
+	Emb   []string    `json:"emb"`           // embedded container ids
+	Exp   []string    `json:"exp,omitempty"` // special: expected accessor results
 }
 
 // ---------------------------------------------------------------- objects
@@ -219,6 +220,110 @@ func genObjNames(maxPairs int, emit func(tcase)) {
 		}
 	}
 	rec(nil)
+}
+
+// private names the interpreter and its native library use themselves are names like any other in a literal
+var specialNames = []string{"_name", "_iter", "_value", "_incBy", "_missing", "_literalProxy", "_error", "_init", "_isJSON", "_PANGAEA_SOURCE_PATH", "_b"}
+
+func genSpecial(emit func(tcase)) {
+	type part struct {
+		emb   bool
+		pairs [][2]string
+	}
+	for _, sn := range specialNames {
+		shapes := [][]part{
+			{{false, [][2]string{{"x", "1"}}}, {true, [][2]string{{sn, "7"}, {"_secret", "2"}}}},
+			{{true, [][2]string{{sn, "7"}}}, {true, [][2]string{{sn, "8"}}}},
+			{{false, [][2]string{{sn, "7"}}}, {true, [][2]string{{sn, "8"}}}},
+			{{true, [][2]string{{sn, "7"}}}},
+			{{false, [][2]string{{sn, "7"}}}},
+			{{false, [][2]string{{"y", "2"}}}, {true, [][2]string{{"x", "1"}, {sn, "7"}}}},
+			{{false, [][2]string{{"a", "1"}}}, {true, [][2]string{{"b", "3"}, {sn, "7"}}}, {true, [][2]string{{sn, "9"}, {"_t", "4"}}}},
+		}
+		for _, sh := range shapes {
+			var lit []string
+			vals := map[string]string{}
+			var pub, priv []string
+			for _, pt := range sh {
+				var ps []string
+				for _, kv := range pt.pairs {
+					ps = append(ps, kv[0]+": "+kv[1])
+					if _, dup := vals[kv[0]]; !dup {
+						vals[kv[0]] = kv[1]
+						if strings.HasPrefix(kv[0], "_") {
+							priv = append(priv, kv[0])
+						} else {
+							pub = append(pub, kv[0])
+						}
+					}
+				}
+				if pt.emb {
+					lit = append(lit, "**{"+strings.Join(ps, ", ")+"}")
+				} else {
+					lit = append(lit, ps...)
+				}
+			}
+			sort.Strings(pub)
+			sort.Strings(priv)
+			all := append(append([]string{}, pub...), priv...)
+			ks := func(ns []string) string {
+				o := make([]string, len(ns))
+				for i, n := range ns {
+					o[i] = q(n)
+				}
+				return arr(o)
+			}
+			vs := make([]string, len(all))
+			its := make([]string, len(all))
+			for i, n := range all {
+				vs[i] = vals[n]
+				its[i] = "[" + q(n) + ", " + vals[n] + "]"
+			}
+			emit(tcase{Kind: "special", Src: "{" + strings.Join(lit, ", ") + "}", Exp: []string{ks(pub), ks(all), arr(vs), arr(its), vals[sn]}, Pairs: [][2]string{{sn, ""}}})
+		}
+	}
+}
+
+// reeval: one literal (one syntax node) evaluated several times with different operands gives each time what the same
+// literal gives when it is written out with that operand (differential; a literal must not remember an earlier evaluation)
+func genReeval(depth int, emit func(tcase)) {
+	mapOps := []string{"%{}", "%{'a: 1}", "%{'b: 2, 'a: 3}", "%{[1]: 4}", "{a: 5}"}
+	objOps := []string{"{}", "{a: 1}", "{b: 2, a: 3}", "{_p: 4}", "{k: 9, _q: 8}"}
+	scalars := []string{"1", "2", "\"s\"", "'k"}
+	type tpl struct {
+		lit string
+		ops []string
+	}
+	tpls := []tpl{
+		{"%{\"k\": 1, **e}", mapOps}, {"%{1: 2, \"s\": 3, **e}", mapOps}, {"%{**e}", mapOps}, {"%{'a: 0, **e, **e}", mapOps}, {"%{[1]: 0, **e}", mapOps},
+		{"{k: 1, **e}", objOps}, {"{**e}", objOps}, {"{a: 0, _p: 0, **e}", objOps}, {"{**e, **{a: 7}}", objOps},
+		{"%{e: 1}", scalars}, {"%{\"k\": e}", scalars}, {"%{e: e, 1: 0}", scalars}, {"{\"c#{e}\": 1, c1: 0}", scalars}, {"{^e: 1}", []string{"\"a\"", "\"b\"", "\"_p\""}}, {"{a: e}", scalars},
+	}
+	for _, tp := range tpls {
+		var rec func(seq []string)
+		rec = func(seq []string) {
+			if len(seq) >= 2 {
+				var calls, written []string
+				for _, o := range seq {
+					calls = append(calls, "f("+o+")")
+					written = append(written, "{|e| "+tp.lit+"}("+o+")")
+				}
+				probe := "@{|m| [m.keys(private?: true), m.values(private?: true), m.S]}"
+				emit(tcase{Kind: "reeval", Src: "f := {|e| " + tp.lit + "}\n[[" + strings.Join(calls, ", ") + "]" + probe + ", [" + strings.Join(written, ", ") + "]" + probe + "]"})
+			}
+			if len(seq) == depth {
+				return
+			}
+			for _, o := range tp.ops {
+				rec(append(append([]string{}, seq...), o))
+			}
+		}
+		rec(nil)
+	}
+}
+
+func specialBody(t tcase) string {
+	return fmt.Sprintf("o := %s\n[o.keys, o.keys(private?: true), o.values(private?: true), o.items(private?: true), o['%s]]", t.Src, t.Pairs[0][0])
 }
 
 func objNamesBody(t tcase) string {
@@ -597,6 +702,9 @@ func judgeSeq(c *core.Ctx, t tcase, o panrun.Obs) {
 // ---------------------------------------------------------------- judging
 
 func nontrivial(t tcase) bool {
+	if t.Kind == "reeval" || t.Kind == "special" {
+		return true
+	}
 	if len(t.Emb) > 0 {
 		return true
 	}
@@ -668,6 +776,21 @@ func judge(c *core.Ctx, t tcase, o panrun.Obs) {
 					class = names[i]
 				}
 				viol(class, fmt.Sprintf("element %d = %s", i, e), got)
+				return
+			}
+		}
+		return
+	}
+	if t.Kind == "reeval" {
+		if len(a.Elems) != 2 || a.Elems[0].Inspect() != a.Elems[1].Inspect() {
+			viol("literal-evaluated-again", "every evaluation of the literal gives what a literal written for that operand gives: "+a.Elems[1].Inspect(), a.Elems[0].Inspect())
+		}
+		return
+	}
+	if t.Kind == "special" {
+		for i, e := range t.Exp {
+			if got := a.Elems[i].Inspect(); got != e {
+				viol("special-private-name/"+[]string{"keys", "keys-private", "values-private", "items-private", "index"}[i], e, got)
 				return
 			}
 		}
@@ -766,7 +889,15 @@ func run(c *core.Ctx) {
 		genSeqs(emit)
 		genObjNames(c.Pick(3, 4), emit)
 		genCollide(emit)
+		genSpecial(emit)
+		genReeval(c.Pick(3, 4), emit)
 	}, func(t tcase) string {
+		if t.Kind == "reeval" {
+			return t.Src
+		}
+		if t.Kind == "special" {
+			return specialBody(t)
+		}
 		if t.Kind == "cmap" || t.Kind == "cobj" {
 			return collideBody(t)
 		}
@@ -808,6 +939,12 @@ func replay(c *core.Ctx, raw json.RawMessage) {
 	}
 	if t.Kind == "cmap" || t.Kind == "cobj" {
 		body = collideBody(t)
+	}
+	if t.Kind == "special" {
+		body = specialBody(t)
+	}
+	if t.Kind == "reeval" {
+		body = t.Src
 	}
 	obs := c.R().Thunks("", []string{body}, "")
 	c.Eval(1)
